@@ -596,6 +596,8 @@ package saml2
 
 // Guarded-by discipline for the lazily built signing context (C17).
 //@ guarded [C17] SAMLServiceProvider.signingContext by signingContextMu
+// ... and the context object itself is configured only under the write lock (it is shared once published).
+//@ guarded [C17] pointee dsig.SigningContext by SAMLServiceProvider.signingContextMu
 
 //@ pure func KDCert(kd types.KeyDescriptor) string {
 //@   return kd.KeyInfo.X509Data.X509Certificates[0].Data
@@ -792,3 +794,37 @@ package saml2
 //@        && len(ChildEl(ChildEl(logoutResponse, 1), 0).Attr) == 1
 //@   exit [C15, C13] unsigned: err == nil && !includeSig ==> doc.$root == logoutResponse
 //@   exit [C15, C13] signed: err == nil && includeSig ==> doc.$root == signed && SignedCopy(sp, logoutResponse, signed, sp.signingContext)
+
+// ---------------------------------------------------------------------------
+// HTTP-POST binding forms (C16)
+// ---------------------------------------------------------------------------
+
+//@ func (sp *SAMLServiceProvider) buildAuthBodyPostFromDocument(relayState string, doc *etree.Document) (out []byte, err error)
+//@   requires sp != nil && doc != nil
+//@   frame [C17]
+//@   assigns nothing
+//@   exit [C16] template: err == nil ==> tmplWellFormed(tmpl.$text, "SAMLRequest") && (tmplHasRelay(tmpl.$text) <==> relayState != "")
+//@   exit [C16] endpoint: err == nil ==> data.URL == sp.IdentityProviderSSOURL
+//@   exit [C16] payload: err == nil ==> data.SAMLRequest == b64enc(reqBuf)
+//@   exit [C16] relay: err == nil ==> data.RelayState == relayState
+//@   exit [C16] output: err == nil ==> out == rendered(tmpl.$text, data)
+
+//@ func (sp *SAMLServiceProvider) buildLogoutBodyPostFromDocument(relayState string, doc *etree.Document) (out []byte, err error)
+//@   requires sp != nil && doc != nil
+//@   frame [C17]
+//@   assigns nothing
+//@   exit [C16] template: err == nil ==> tmplWellFormed(tmpl.$text, "SAMLRequest") && (tmplHasRelay(tmpl.$text) <==> relayState != "")
+//@   exit [C16] endpoint: err == nil ==> data.URL == sp.IdentityProviderSLOURL
+//@   exit [C16] payload: err == nil ==> data.SAMLRequest == b64enc(reqBuf)
+//@   exit [C16] relay: err == nil ==> data.RelayState == relayState
+//@   exit [C16] output: err == nil ==> out == rendered(tmpl.$text, data)
+
+//@ func (sp *SAMLServiceProvider) buildLogoutResponseBodyPostFromDocument(relayState string, doc *etree.Document) (out []byte, err error)
+//@   requires sp != nil && doc != nil
+//@   frame [C17]
+//@   assigns nothing
+//@   exit [C16] template: err == nil ==> tmplWellFormed(tmpl.$text, "SAMLResponse") && (tmplHasRelay(tmpl.$text) <==> relayState != "")
+//@   exit [C16] endpoint: err == nil ==> data.URL == sp.IdentityProviderSLOURL
+//@   exit [C16] payload: err == nil ==> data.SAMLResponse == b64enc(respBuf)
+//@   exit [C16] relay: err == nil ==> data.RelayState == relayState
+//@   exit [C16] output: err == nil ==> out == rendered(tmpl.$text, data)
